@@ -1401,6 +1401,200 @@ def jvp_return(repo, out):
                 out.unsure(fn, n.ast, f'cannot tell whether `{astx.src(e)}` aliases a vector')
 
 
+# --------------------------------------------------------------------------- C31.coloring_run
+RUN_CALLS = ('run_model', 'run_solve_nonlinear', '_solve_nonlinear', 'run_driver')
+# how the run_model flag travels from get_total_coloring to the place that executes the model
+COLORING_CHAIN = [(COLOR, 'dynamic_total_coloring', 'compute_total_coloring'),
+                  (COLOR, 'compute_total_coloring', '_get_total_jac_sparsity')]
+COLORING_RUNNERS = [(COLOR, 'compute_total_coloring'), (COLOR, '_get_total_jac_sparsity')]
+
+
+class _NoEval(Exception):
+    def __init__(self, node):
+        self.node = node
+
+
+def _eval_counter(e, c):
+    """Evaluate an expression over self._run_counter = c (ints, comparisons, boolean connectives)."""
+    if isinstance(e, ast.Constant) and isinstance(e.value, (int, bool)):
+        return e.value
+    if isinstance(e, ast.Attribute) and e.attr == '_run_counter':
+        return c
+    if isinstance(e, ast.UnaryOp):
+        v = _eval_counter(e.operand, c)
+        if isinstance(e.op, ast.Not):
+            return not v
+        if isinstance(e.op, ast.USub):
+            return -v
+    if isinstance(e, ast.BinOp) and isinstance(e.op, (ast.Add, ast.Sub)):
+        a, b = _eval_counter(e.left, c), _eval_counter(e.right, c)
+        return a + b if isinstance(e.op, ast.Add) else a - b
+    if isinstance(e, ast.BoolOp):
+        vals = [_eval_counter(v, c) for v in e.values]
+        return all(vals) if isinstance(e.op, ast.And) else any(vals)
+    if isinstance(e, ast.Compare):
+        left = _eval_counter(e.left, c)
+        for op, r in zip(e.ops, e.comparators):
+            right = _eval_counter(r, c)
+            fn = {ast.Lt: lambda a, b: a < b, ast.LtE: lambda a, b: a <= b, ast.Gt: lambda a, b: a > b,
+                  ast.GtE: lambda a, b: a >= b, ast.Eq: lambda a, b: a == b, ast.NotEq: lambda a, b: a != b}.get(type(op))
+            if fn is None:
+                raise _NoEval(e)
+            if not fn(left, right):
+                return False
+            left = right
+        return True
+    raise _NoEval(e)
+
+
+def _param_truthy_guarded(ctx, node, pname):
+    """True if CFG node is only reachable through the true edge of a test that is exactly parameter pname."""
+    g = ctx.g
+    tests = [t for t in g.nodes if t.kind == 'test' and isinstance(t.ast, ast.If) and
+             isinstance(t.ast.test, ast.Name) and t.ast.test.id == pname and
+             ctx.rd.defs(t, pname) == {g.entry}]
+    # remove the true edges of those tests: if node is still reachable, it is not guarded
+    from collections import deque
+    dq, seen = deque([g.entry]), {g.entry}
+    while dq:
+        n = dq.popleft()
+        if n is node:
+            return False
+        for m2, lab in g.succ[n]:
+            if n in tests and lab == 'true':
+                continue
+            if m2 not in seen:
+                seen.add(m2)
+                dq.append(m2)
+    return bool(tests)
+
+
+@rule('C31.coloring_run', floor=6)
+def coloring_run(repo, out):
+    """A dynamic total coloring triggered by a derivative query runs the model only if it has never been run: the default of get_total_coloring's run flag is true at most for the initial run counter, and the flag alone gates every run_model on the coloring path."""
+    # 1. initial value and monotonicity of the run counter
+    init = repo.func(PROB, 'Problem.__init__')
+    inits = [st for st in astx.walk_stmts(init.node.body) if isinstance(st, ast.Assign) and
+             any(astx.path(t) == 'self._run_counter' for t in st.targets)]
+    if len(inits) != 1 or not isinstance(astx.canon(inits[0].value), ast.Constant) or \
+            not isinstance(astx.canon(inits[0].value).value, int):
+        raise AnalysisError('initial value of Problem._run_counter not found')
+    c0 = astx.canon(inits[0].value).value
+    m = repo.module(PROB)
+    for f in m.funcs.values():
+        for st in astx.walk_stmts(f.node.body):
+            if isinstance(st, (ast.Assign, ast.AugAssign)):
+                for t in astx.assigned_targets(st):
+                    if isinstance(t, ast.Attribute) and t.attr == '_run_counter' and st is not inits[0]:
+                        if not (isinstance(st, ast.AugAssign) and isinstance(st.op, ast.Add) and
+                                isinstance(st.value, ast.Constant) and st.value.value == 1):
+                            out.unsure(f, st, '_run_counter written other than by `+= 1`: "never run" is no longer '
+                                       'counter == initial value')
+                            return
+    out.ok(init, inits[0], f'_run_counter starts at {c0} and only ever grows by 1 per run')
+
+    # 2. default of the run flag in get_total_coloring
+    fn = repo.func(PROB, 'Problem.get_total_coloring')
+    ctx = Ctx(repo, fn)
+    g = ctx.g
+    calls = [(n, c) for n in g.calling('dynamic_total_coloring') for c in n.calls()
+             if astx.callee_attr(c) == 'dynamic_total_coloring']
+    if not calls:
+        raise AnalysisError(f'{fn.ident}: dynamic_total_coloring call not found')
+    for n, c in calls:
+        flag = astx.arg(c, 1, 'run_model')
+        if flag is None:
+            out.bad(fn, c, 'dynamic_total_coloring is called without run_model: its default (True) re-runs the model '
+                    'on every query that needs a coloring', key='coloring-run-default')
+            continue
+        exprs = [(flag, n)]
+        defaults = []
+        seen = set()
+        bad_shape = None
+        while exprs:
+            e, at = exprs.pop()
+            if id(e) in seen:
+                continue
+            seen.add(id(e))
+            if isinstance(e, ast.Name):
+                ds = ctx.rd.defs(at, e.id)
+                for d in ds:
+                    if d is g.entry:
+                        continue        # explicit caller-supplied flag: out of scope
+                    if d.kind == 'stmt' and isinstance(d.ast, ast.Assign) and len(d.ast.targets) == 1 and \
+                            isinstance(d.ast.targets[0], ast.Name):
+                        exprs.append((d.ast.value, d))
+                    else:
+                        bad_shape = d.ast
+            elif isinstance(e, ast.IfExp):
+                exprs.append((e.body, at))
+                exprs.append((e.orelse, at))
+            elif isinstance(e, ast.BoolOp) and isinstance(e.op, ast.Or) and len(e.values) == 2 and \
+                    isinstance(e.values[0], ast.Name) and ctx.rd.defs(at, e.values[0].id) == {g.entry}:
+                exprs.append((e.values[1], at))
+            else:
+                defaults.append(e)
+        if bad_shape is not None or not defaults:
+            out.unsure(fn, c, 'default of the run flag not recognised')
+            continue
+        for e in defaults:
+            try:
+                vals = [bool(_eval_counter(e, c0 + k)) for k in range(3)]
+            except _NoEval as u:
+                out.unsure(fn, e, f'run-flag default contains an atom other than the run counter: {astx.src(u.node)}')
+                continue
+            if vals[1] or vals[2]:
+                k = 1 if vals[1] else 2
+                out.bad(fn, e, f'the default run flag `{astx.src(e)}` is still true after {k} run(s) '
+                        f'(_run_counter = {c0 + k}, initial {c0}): a derivative query that has to compute a dynamic '
+                        'coloring (compute_totals / check_totals -> _TotalJacInfo.__init__ -> get_total_coloring) '
+                        're-runs an already executed model, so set_val + compute_totals silently recomputes outputs',
+                        key='coloring-run-default')
+            else:
+                out.ok(fn, e, f'default run flag is {vals} for counter {c0}, {c0 + 1}, {c0 + 2}: true only before the first run')
+
+    # 3. the flag is handed down unchanged
+    for rel, qn, callee in COLORING_CHAIN:
+        f = repo.func(rel, qn)
+        cx = Ctx(repo, f)
+        found = False
+        for n in cx.g.calling(callee):
+            for c in n.calls():
+                if astx.callee_attr(c) != callee:
+                    continue
+                found = True
+                v = astx.kwarg(c, 'run_model')
+                if isinstance(v, ast.Name) and v.id == 'run_model' and cx.rd.defs(n, 'run_model') == {cx.g.entry}:
+                    out.ok(f, c, 'run_model flag passed through unchanged')
+                elif v is None and callee == '_get_total_jac_sparsity':
+                    out.ok(f, c, 'run_model not passed (callee default False)')
+                elif isinstance(v, ast.Constant) and v.value is False:
+                    out.ok(f, c, 'run_model=False')
+                elif isinstance(v, ast.Constant) or v is None:
+                    out.bad(f, c, f'{callee} is asked to run the model regardless of the caller\'s run_model flag',
+                            key='coloring-run-chain')
+                else:
+                    out.unsure(f, c, 'run_model argument is not the unchanged parameter')
+        if not found:
+            raise AnalysisError(f'{f.ident}: call of {callee} not found')
+
+    # 4. every model execution on the coloring path is gated by the flag alone
+    for rel, qn in COLORING_RUNNERS + [(COLOR, 'dynamic_total_coloring'), (PROB, 'Problem.get_total_coloring')]:
+        f = repo.func(rel, qn)
+        cx = Ctx(repo, f)
+        for n in cx.g.nodes:
+            if n.kind in ('entry', 'exit', 'raise', 'join'):
+                continue
+            for c in n.calls():
+                if astx.callee_attr(c) in RUN_CALLS:
+                    if _param_truthy_guarded(cx, n, 'run_model'):
+                        out.ok(f, c, 'model execution only under `if run_model:`')
+                    else:
+                        out.bad(f, c, f'{astx.callee_attr(c)}() on the total-coloring path is not gated by the '
+                                'run_model flag alone: a read-only derivative query can re-execute the model',
+                                key='coloring-run-ungated')
+
+
 # --------------------------------------------------------------------------- self-test
 _CTX_OLD = ("    try:\n        yield\n    finally:\n        problem._metadata['coloring_randgen'] = None\n"
             "        problem._computing_coloring = False\n"
@@ -1490,10 +1684,12 @@ selftest(
            "                                finally:\n                                    pass\n", 'C31.flags'),
 )
 
-_RESTORE_CT = ("        if not approx:\n            model._jacobian = old_jac\n            model._owns_approx_jac = False\n"
-               "            model._owns_approx_of = approx_of\n            model._owns_approx_wrt = approx_wrt\n"
-               "            model._owns_approx_jac_meta = approx_jac_meta\n            model._subjacs_info = old_subjacs\n"
-               "            model._approx_schemes = old_schemes\n")
+_RESTORE_CT = ("        model._jacobian = old_jac\n        model._owns_approx_jac = approx\n"
+               "        model._owns_approx_of = approx_of\n        model._owns_approx_wrt = approx_wrt\n"
+               "        model._owns_approx_jac_meta = approx_jac_meta\n        model._subjacs_info = old_subjacs\n"
+               "        model._approx_schemes = old_schemes\n")
+_RESTORE_CT_PREFIX = ("        if not approx:\n" + _RESTORE_CT.replace('        model', '            model')
+                      .replace('model._owns_approx_jac = approx\n', 'model._owns_approx_jac = False\n'))
 _PI_RESTORE = ("        for vec, save_array in zip(perturb_vecs, save_perturb_arrays):\n            vec.set_val(save_array)\n"
                "        for vec, save_array in zip(save_vecs, save_arrays):\n            vec.set_val(save_array)\n")
 
@@ -1517,24 +1713,21 @@ selftest(
            "        with self._unscaled_context(outputs=[self._outputs]):\n            output_cache = self._outputs.asarray(copy=True)\n",
            'C31.check_partials'),
     # ---- check_totals
-    Mutant('ct-cross-wired', PROB, "            model._owns_approx_of = approx_of\n            model._owns_approx_wrt = approx_wrt\n",
-           "            model._owns_approx_of = approx_wrt\n            model._owns_approx_wrt = approx_of\n", 'C31.check_totals'),
-    Mutant('ct-drop-jac-meta-restore', PROB, "            model._owns_approx_jac_meta = approx_jac_meta\n", "", 'C31.check_totals'),
-    Mutant('ct-drop-schemes-restore', PROB, "            model._approx_schemes = old_schemes\n", "", 'C31.check_totals'),
+    Mutant('ct-cross-wired', PROB, "        model._owns_approx_of = approx_of\n        model._owns_approx_wrt = approx_wrt\n",
+           "        model._owns_approx_of = approx_wrt\n        model._owns_approx_wrt = approx_of\n", 'C31.check_totals'),
+    Mutant('ct-drop-jac-meta-restore', PROB, "        model._owns_approx_jac_meta = approx_jac_meta\n", "", 'C31.check_totals'),
+    Mutant('ct-drop-schemes-restore', PROB, "        model._approx_schemes = old_schemes\n", "", 'C31.check_totals'),
     Mutant('ct-subjacs-no-copy', PROB, "old_subjacs = model._subjacs_info.copy()", "old_subjacs = model._subjacs_info", 'C31.check_totals'),
     Mutant('ct-late-snapshot', PROB, "        old_schemes = model._approx_schemes\n", "", 'C31.check_totals',
            also=[(PROB, "            model._approx_schemes = {}\n", "            model._approx_schemes = {}\n            old_schemes = model._approx_schemes\n")]),
-    Mutant('ct-approx-flag-true', PROB, "            model._owns_approx_jac = False\n", "            model._owns_approx_jac = True\n", 'C31.check_totals'),
-    Mutant('ct-unguarded-false', PROB, _RESTORE_CT,
-           "        model._jacobian = old_jac\n        model._owns_approx_jac = False\n"
-           "        model._owns_approx_of = approx_of\n        model._owns_approx_wrt = approx_wrt\n"
-           "        model._owns_approx_jac_meta = approx_jac_meta\n        model._subjacs_info = old_subjacs\n"
-           "        model._approx_schemes = old_schemes\n", 'C31.check_totals'),
-    Mutant('ct-restore-only-multi-step', PROB, "        if not approx:\n            model._jacobian = old_jac\n",
-           "        if not approx and do_steps:\n            model._jacobian = old_jac\n", 'C31.check_totals_guard',
-           also=[(PROB, "        do_steps = len(Jfds) > 1\n", ""),
-                 (PROB, "        # reset the _owns_approx_jac flag after approximation is complete.\n",
-                  "        do_steps = len(Jfds) > 1\n")]),
+    Mutant('ct-approx-flag-false', PROB, "        model._owns_approx_jac = approx\n", "        model._owns_approx_jac = False\n", 'C31.check_totals'),
+    Mutant('ct-approx-flag-true', PROB, "        model._owns_approx_jac = approx\n", "        model._owns_approx_jac = True\n", 'C31.check_totals'),
+    # the pre-fix shape (finding F13): restore skipped for models that already use approx_totals
+    Mutant('ct-prefix-restore-only-if-not-approx', PROB, _RESTORE_CT, _RESTORE_CT_PREFIX, 'C31.check_totals_guard'),
+    Mutant('ct-restore-only-multi-step', PROB, _RESTORE_CT,
+           "        if len(Jfds) > 1:\n" + _RESTORE_CT.replace('        model', '            model'), 'C31.check_totals_guard'),
+    Mutant('ct-early-return-before-restore', PROB, "        # restore the model's own approximation settings after the check is complete.\n",
+           "        if out_stream is None and not Jfds:\n            return {}\n", 'C31.check_totals_guard'),
     # ---- perturb
     Mutant('pi-snapshot-no-copy', SYS, "save_arrays = [vec.asarray(copy=True) for vec in save_vecs]",
            "save_arrays = [vec.asarray() for vec in save_vecs]", 'C31.perturb'),
@@ -1559,8 +1752,22 @@ selftest(
            "return {n: lvec.asarray()[slice(*lvec.get_range(resolver.source(n)))] for n in lnames}", 'C31.jvp_return'),
     Twin('twin-jvp-return-nparray', PROB, "return {n: lvec[resolver.source(n)].copy() for n in lnames}",
          "return {n: np.array(lvec[resolver.source(n)]) for n in lnames}"),
-    Twin('twin-ct-flipped-guard', PROB, _RESTORE_CT,
-         "        if approx:\n            pass\n        else:\n" + _RESTORE_CT.split('\n', 1)[1]),
+    Twin('twin-ct-guarded-constant', PROB, "        model._owns_approx_jac = approx\n",
+         "        if approx:\n            model._owns_approx_jac = True\n        else:\n            model._owns_approx_jac = False\n"),
+    # ---- coloring_run
+    Mutant('cr-seed-le-zero', PROB, "else self._run_counter < 0", "else self._run_counter <= 0", 'C31.coloring_run'),
+    Mutant('cr-always', PROB, "else self._run_counter < 0", "else True", 'C31.coloring_run'),
+    Mutant('cr-ne-zero', PROB, "else self._run_counter < 0", "else self._run_counter != 0", 'C31.coloring_run'),
+    Mutant('cr-chain-true', COLOR, "orders=orders, setup=False, run_model=run_model, fname=fname,",
+           "orders=orders, setup=False, run_model=True, fname=fname,", 'C31.coloring_run'),
+    Mutant('cr-ungated-run', COLOR, "        if run_model:\n            prob.run_model(reset_iter_counts=False)\n",
+           "        prob.run_model(reset_iter_counts=False)\n", 'C31.coloring_run'),
+    Mutant('cr-gate-or-setup', COLOR, "        if run_model:\n            prob.run_model(reset_iter_counts=False)\n",
+           "        if run_model or num_full_jacs > 1:\n            prob.run_model(reset_iter_counts=False)\n", 'C31.coloring_run'),
+    Twin('twin-cr-eq-initial', PROB, "else self._run_counter < 0", "else self._run_counter == -1"),
+    Twin('twin-cr-flipped-plus-one', PROB, "else self._run_counter < 0", "else 0 >= self._run_counter + 1"),
+    Twin('twin-cr-if-statement', PROB, "                    do_run = run_model if run_model is not None else self._run_counter < 0\n",
+         "                    never_run = not (self._run_counter >= 0)\n                    do_run = run_model if run_model is not None else never_run\n"),
     # ---- twins
     Twin('twin-zero-vecs-alias', TJ, "        self.model._doutputs.set_val(0.0)\n        self.model._dresiduals.set_val(0.0)\n",
          "        mdl = self.model\n        mdl._doutputs.set_val(0.0)\n        dres = mdl._dresiduals\n        dres.set_val(0.0)\n"),
@@ -1580,8 +1787,8 @@ selftest(
          also=[(COMP, "                self._outputs.set_val(output_cache)\n", "                self._outputs.set_val(saved_outs)\n")]),
     Twin('twin-cp-restore-order', COMP, "                self._inputs.set_val(input_cache)\n                self._outputs.set_val(output_cache)\n",
          "                self._outputs.set_val(output_cache)\n                self._inputs.set_val(input_cache)\n"),
-    Twin('twin-ct-renamed-reordered', PROB, "            model._jacobian = old_jac\n            model._owns_approx_jac = False\n",
-         "            model._owns_approx_jac = False\n            model._jacobian = saved_jac\n",
+    Twin('twin-ct-renamed-reordered', PROB, "        model._jacobian = old_jac\n        model._owns_approx_jac = approx\n",
+         "        model._owns_approx_jac = approx\n        model._jacobian = saved_jac\n",
          also=[(PROB, "        old_jac = model._jacobian\n", "        saved_jac = model._jacobian\n")]),
     Twin('twin-ct-dict-copy', PROB, "old_subjacs = model._subjacs_info.copy()", "old_subjacs = dict(model._subjacs_info)"),
     Twin('twin-pi-renamed', SYS, "        for vec, save_array in zip(save_vecs, save_arrays):\n            vec.set_val(save_array)\n",
